@@ -505,6 +505,313 @@ def e2e_lsh_capped(ck, rng, modes):
     return st
 
 
+# --------------------------------------------------------------------------------------
+# command line: isolated components of verbatim copies (every pair exactly 1.0) next to mixed components,
+# and the similarity range of the report (min_similarity / max_similarity) exactly at / next to observed values
+# --------------------------------------------------------------------------------------
+# structurally unrelated functions; the copies of one component are the same text (same names, same literals)
+VERB = ['''def load_table(path, defaults):
+    result = dict(defaults)
+    handle = open(path)
+    while True:
+        line = handle.readline()
+        if not line:
+            break
+        key, _, value = line.partition("{s1}")
+        result[key.strip()] = value.strip()
+    handle.close()
+    result["lines"] = {c1}
+    return result
+''', '''class Window{c1}:
+    def __init__(self, width, height):
+        self.width = width
+        self.height = height
+        self.title = "{s1}"
+        self.border = {c2}
+        self.children = []
+
+    def area(self):
+        inner = self.width * self.height
+        frame = {c1} * self.border
+        return inner - frame
+
+    def add(self, child):
+        self.children.append(child)
+        return len(self.children)
+''', '''def parse_flags(argv, known):
+    flags = {{}}
+    rest = []
+    for pos, arg in enumerate(argv):
+        if arg.startswith("--") and arg[2:] in known:
+            flags[arg[2:]] = pos + {c2}
+        elif arg == "{s1}":
+            rest.extend(argv[pos + 1:])
+            break
+        else:
+            rest.append(arg)
+    if len(rest) > {c1}:
+        raise SystemExit(rest[{c1}])
+    return flags, rest
+''', '''def merge_maps(left, right, limit):
+    merged = {{k: v for k, v in left.items() if v is not None}}
+    extra = [k for k in right if k not in merged]
+    merged.update((k, right[k]) for k in extra)
+    assert len(merged) >= {c1}, "{s1}"
+    keys = sorted(merged, key=lambda k: (len(k), k))
+    first = keys[:limit]
+    rest = keys[limit:]
+    dropped = {{k: merged.pop(k) for k in rest}}
+    sizes = (len(first), len(rest), len(dropped))
+    return merged, first, sizes, {c2}
+''', '''def format_row(name, width, fill):
+    text = str(name)
+    pad = width - len(text)
+    left = pad // 2
+    right = pad - left
+    text = fill * left + text + fill * right
+    text = text.replace("{s1}", "")
+    text = text[:width + {c1}]
+    edge = "|" if width > {c2} else "!"
+    line = edge + text + edge
+    print(line)
+    return line
+''', '''def walk_tree(node, visit):
+    stack = [node]
+    seen = set()
+    while stack:
+        cur = stack.pop()
+        if id(cur) in seen:
+            continue
+        seen.add(id(cur))
+        visit(cur, {c1})
+        stack.extend(reversed(cur.children))
+    total = len(seen)
+    return total + {c2}
+''']
+D40 = 2.0 ** -40
+VERB_CFG = "min_lines = 6\nmin_nodes = 10\n"      # the defaults (10 lines, 20 nodes) would drop most of these functions
+
+
+def write_verbatim_project(d, rng):
+    """Files with three isolated families of 2, 3 and 4 verbatim copies (three unrelated texts, the copies spread over the
+    files) next to near copies (FAMILY, OTHER) that form mixed components. Returns the sizes asked for."""
+    nfiles = rng.randint(3, 5)
+    texts = [[] for _ in range(nfiles)]
+    sizes = [2, 3, 4]
+    rng.shuffle(sizes)
+    for size, tmpl in zip(sizes, rng.sample(VERB, 3)):
+        text = tmpl.format(c1=rng.randint(1, 9), c2=rng.randint(1, 9), s1=rng.choice(["=", ":", "-", "x"]))
+        where = rng.sample(range(nfiles), min(size, nfiles))
+        where += [rng.randrange(nfiles) for _ in range(size - len(where))]      # more copies than files: two in one file
+        for f in where:
+            texts[f].append(text)
+    k = 0
+    ex = ""
+    for _ in range(rng.randint(4, 6)):
+        if k != 1:          # the first two differ in their constants only: at least one mixed component at every threshold used
+            ex = "".join(rng.sample(EXTRAS, rng.randint(0, 2)))
+        texts[rng.randrange(nfiles)].append(FAMILY.format(name="fam%d" % k, c1=rng.randint(1, 9), c2=rng.randint(1, 9), c3=rng.randint(1, 9), extra=ex))
+        k += 1
+    for _ in range(rng.randint(2, 3)):
+        ex = "".join(rng.sample(EXTRAS, rng.randint(0, 1)))
+        texts[rng.randrange(nfiles)].append(OTHER.format(name="oth%d" % k, meth=rng.choice(["lower", "upper"]),
+                                                        extra=ex.replace("total", "mode").replace("count", "mode").replace("items", "lines").replace("limit", "mode")))
+        k += 1
+    for fi, parts in enumerate(texts):
+        rng.shuffle(parts)
+        with open(os.path.join(d, "part%d.py" % fi), "w") as f:
+            f.write("\n".join(parts) or "pass\n")
+    return sizes
+
+
+def report_elems(cl):
+    """(pairs, groups) of a report keyed by location: {frozenset of 2 keys: similarity}, {frozenset of keys: similarity}."""
+    pairs = {frozenset((loc_key(p["clone1"]), loc_key(p["clone2"]))): p["similarity"] for p in cl.get("clone_pairs") or []}
+    groups = {frozenset(loc_key(c) for c in g["clones"]): g["similarity"] for g in cl.get("clone_groups") or []}
+    return pairs, groups
+
+
+def pure_components(pairs, t):
+    """Components (>= 2 members) of the reported pair graph at t all of whose reported inner pairs are exactly 1.0."""
+    out = []
+    for comp in components(threshold_graph(pairs, t), set(x for a, b, _ in pairs for x in (a, b))):
+        if len(comp) >= 2 and all(s == 1 for a, b, s in pairs if a in comp and b in comp):
+            out.append(comp)
+    return out
+
+
+def range_lattice(values):
+    """(min_similarity, max_similarity) with one bound exactly at / 2^-40 below / 2^-40 above each value, the other at its default."""
+    out = []
+    for v in values:
+        for dv in (0.0, -D40, D40):
+            b = v + dv
+            if 0.0 <= b <= 1.0 and (b == v) == (dv == 0.0):
+                out += [(b, 1.0), (0.0, b)]
+    return [x for x in dict.fromkeys(out) if x != (0.0, 1.0)]
+
+
+def in_range(s, lo, hi):
+    return lo <= s <= hi
+
+
+def e2e_verbatim(ck, rng, projects, modes_full):
+    """Returns (cases, impl groups, statistics)."""
+    from concurrent.futures import ThreadPoolExecutor
+    import shutil
+    cases, impls = [], []
+    st = {"projects": 0, "runs": 0, "range_runs": 0, "pure_component_sizes": [], "mixed_components": 0, "bound_on_group_similarity": 0,
+          "bound_on_pair_similarity": 0, "groups_dropped_by_range": 0, "pairs_dropped_by_range": 0, "contract_decided": 0,
+          "known_range_filter_cases": 0, "range_filter_violations": 0}
+
+    def one(job):
+        d, mode, thr, k, extra = job
+        return cli_run(ck, d, mode, thr, k, True, extra)
+
+    for pi in range(projects):
+        d0 = lib.fresh_dir("c10_e2e_verb_%d" % pi)
+        write_verbatim_project(d0, rng)
+        srcs = [f for f in os.listdir(d0) if f.endswith(".py")]
+        thr = rng.choice([0.7, 0.75, 0.8])
+        settings = [(mode, thr, rng.choice([2, 3]) if mode == "k_core" else 2) for mode in MODES]
+
+        def clone_dir(tag):
+            d = lib.fresh_dir("c10_e2e_verb_%d_%s" % (pi, tag))
+            for f in srcs:
+                shutil.copy(os.path.join(d0, f), d)
+            return d
+        # phase 1: the default range [0, 1], every grouping mode
+        jobs1 = [(clone_dir("m%d" % MN[mode]), mode, t, k, VERB_CFG) for mode, t, k in settings]
+        with ThreadPoolExecutor(8) as ex:
+            res1 = list(ex.map(one, jobs1))
+        st["projects"] += 1
+        jobs2, meta2 = [], []
+        base = {}
+        decided = set()
+        for (d, mode, t, k, _), res in zip(jobs1, res1):
+            if res is None:
+                continue
+            cl, keys = res
+            st["runs"] += 1
+            req = cl.get("request") or {}
+            if req.get("min_similarity") != 0.0 or req.get("max_similarity") != 1.0:
+                ck.broken_ties.append("e2e: default similarity range of the clone request is not [0, 1]: %s %s" % (req.get("min_similarity"), req.get("max_similarity")))
+            order = sorted(keys)
+            pairs, groups = number(cl, order)
+            c = {"kind": "explicit", "e2e": True, "verbatim": True, "n": len(order), "pairs": pairs, "t": Fraction(t), "mode": mode, "k": k,
+                 "ord": collect(pairs), "dir": d, "locations": order, "config": open(os.path.join(d, ".pyscn.toml")).read()}
+            cases.append(c)
+            impls.append(groups)
+            ok0 = py_contract(mode, k, Fraction(t), pairs, groups) is None
+            P0, G0 = report_elems(cl)
+            base[mode] = (P0, G0, ok0)
+            if mode == "connected":
+                pure = pure_components(pairs, Fraction(t))
+                st["pure_component_sizes"] = sorted(len(x) for x in pure)
+                comps = [x for x in components(threshold_graph(pairs, Fraction(t)), set(range(len(order)))) if len(x) >= 2]
+                st["mixed_components"] += len(comps) - len(pure)
+                if not {2, 3, 4} <= set(len(x) for x in pure) or len(comps) == len(pure):
+                    ck.broken_ties.append("e2e: the verbatim project has no isolated all-1.0 component of each size 2, 3, 4 next to a mixed "
+                                          "component at threshold %s (generator too weak): pure %s of %d components" % (t, st["pure_component_sizes"], len(comps)))
+            # phase 2: the range of the report exactly at / next to observed group and pair similarities
+            gs = sorted(set(G0.values()))
+            ps = sorted(set(P0.values()) - set(G0.values()))
+            # prefer the similarity of a group with three or more members (its pairs differ from its average) and a pair inside one
+            lows3 = sorted(set(s for e, s in G0.items() if s < 1.0 and len(e) >= 3))
+            lows = lows3 or [g for g in gs if g < 1.0]
+            gvals = [g for g in gs if g == 1.0] + rng.sample(lows, min(len(lows), 1))
+            ps3 = sorted(set(s for e, s in P0.items() if s in ps and any(len(g) >= 3 and e <= g for g in G0)))
+            pvals = rng.sample(ps3 or ps, min(len(ps3 or ps), 1))
+            if not modes_full and mode != "connected" and gvals[1:] and pvals:
+                # quick tier: connected (the exact clause) gets both, the other modes 1.0 and a seeded one of the two
+                if rng.random() < 0.5:
+                    gvals = gvals[:1]
+                else:
+                    pvals = []
+            if modes_full:
+                more = [g for g in gs if g < 1.0 and g not in gvals]
+                gvals += rng.sample(more, min(len(more), 2))
+                more = [x for x in ps if x not in pvals]
+                pvals += rng.sample(more, min(len(more), 2))
+            st["bound_on_group_similarity"] += len(gvals)
+            st["bound_on_pair_similarity"] += len(pvals)
+            for (lo, hi) in range_lattice(gvals + pvals):
+                dd = clone_dir("m%d_r%d" % (MN[mode], len(jobs2)))
+                jobs2.append((dd, mode, t, k, VERB_CFG + "min_similarity = %r\nmax_similarity = %r\n" % (lo, hi)))
+                meta2.append((lo, hi))
+        with ThreadPoolExecutor(12) as ex:
+            res2 = list(ex.map(one, jobs2))
+        for (d, mode, t, k, _), (lo, hi), res in zip(jobs2, meta2, res2):
+            if res is None:
+                continue
+            cl, keys = res
+            st["runs"] += 1
+            st["range_runs"] += 1
+            cfg = open(os.path.join(d, ".pyscn.toml")).read()
+            req = cl.get("request") or {}
+            if req.get("min_similarity") != lo or req.get("max_similarity") != hi:
+                ck.broken_ties.append("e2e: min_similarity = %r / max_similarity = %r of .pyscn.toml reached the clone request as %r / %r"
+                                      % (lo, hi, req.get("min_similarity"), req.get("max_similarity")))
+                continue
+            P0, G0, ok0 = base[mode]
+            P, G = report_elems(cl)
+            order = sorted(set(x for e in list(P0) + list(G0) + list(P) + list(G) for x in e))
+            num = {kk: i for i, kk in enumerate(order)}
+            show = lambda e: sorted(num[x] for x in e)
+            replay = {"kind": "e2e-range", "dir": d, "config": cfg, "mode": mode, "threshold": t, "k": k, "min_similarity": lo, "max_similarity": hi,
+                      "locations": order, "how": "cd <dir> && pyscn analyze --json --no-open --select clones .   (compare with the same "
+                      "configuration without min_similarity / max_similarity)",
+                      "pairs_without_range": [show(e) + [s] for e, s in P0.items()], "groups_without_range": [[show(e), s] for e, s in G0.items()],
+                      "reported_pairs": [show(e) + [s] for e, s in P.items()], "reported_groups": [[show(e), s] for e, s in G.items()]}
+            # the range is inclusive on both sides for pairs and for groups alike: an element of the unfiltered report with
+            # similarity s is reported iff min_similarity <= s <= max_similarity
+            wantP = {e: s for e, s in P0.items() if in_range(s, lo, hi)}
+            wantG = {e: s for e, s in G0.items() if in_range(s, lo, hi)}
+            st["groups_dropped_by_range"] += len(G0) - len(wantG)
+            st["pairs_dropped_by_range"] += len(P0) - len(wantP)
+            filt_ok = True
+            for what, want, got, full in (("clone pair", wantP, P, P0), ("clone group", wantG, G, G0)):
+                if want != got:
+                    filt_ok = False
+                    st["range_filter_violations"] += 1
+                    if st["range_filter_violations"] > 4:
+                        continue
+                    miss = [show(e) + [s] for e, s in want.items() if e not in got]
+                    more = [show(e) + [s] for e, s in got.items() if e not in want]
+                    on_bound = [x for x in miss if x[-1] in (lo, hi)]
+                    ck.violation("pyscn analyze, mode %s threshold %s, min_similarity = %r max_similarity = %r: the reported %ss are not the %ss of the "
+                                 "run without a range whose similarity s satisfies min_similarity <= s <= max_similarity%s: missing %s, unexpected %s"
+                                 % (mode, t, lo, hi, what, what, " (a %s exactly on a bound is dropped; the other list keeps elements on the same bound)" % what
+                                    if on_bound else "", miss[:4], more[:4]), dict(replay, missing=miss, unexpected=more), independent=True)
+            # the contract of the mode on the REPORTED pairs
+            pairs = [(num[ab[0]], num[ab[-1]], Fraction(s)) for ab, s in ((sorted(e), s) for e, s in P.items())]
+            groups = [show(e) for e in G]
+            why = py_contract(mode, k, Fraction(t), pairs, groups)
+            st["contract_decided"] += 1
+            if why is None:
+                sig = (mode, frozenset(P.items()), frozenset(G))
+                if pairs and sig not in decided:         # many ranges give the same report: the proved checker sees each once
+                    decided.add(sig)
+                    cases.append({"kind": "explicit", "e2e": True, "verbatim": True, "range": (lo, hi), "n": len(order), "pairs": pairs, "t": Fraction(t),
+                                  "mode": mode, "k": k, "ord": collect(pairs), "dir": d, "locations": order, "config": cfg})
+                    impls.append(groups)
+                continue
+            if not filt_ok or not ok0:
+                # reported above with the precise reason, resp. the run without a range already breaks the contract (it is among the
+                # returned cases and reported from there): what the range makes of such a report is not a separate failing input
+                continue
+            tags = {"source": "cli", "report_filter": "similarity_range", "range_is_default": (lo, hi) == (0.0, 1.0),
+                    "inclusive_range_filter_of_a_report_that_meets_the_contract": bool(ok0)}
+            e = ck.match_known(tags)
+            if e:
+                st["known_range_filter_cases"] += 1
+                ck.known_finding(e)
+            else:
+                ck.violation("pyscn analyze, mode %s threshold %s, min_similarity = %r max_similarity = %r: %s" % (mode, t, lo, hi, why),
+                             dict(replay, tags=tags), independent=True)
+    return cases, impls, st
+
+
 def e2e(ck, rng, runs):
     """CLI: clone.clone_groups[] against clone.clone_pairs[] of the same JSON report, per grouping mode.
     Returns explicit cases (graph = reported pairs, all clone types enabled) and the reported groups."""
@@ -837,6 +1144,13 @@ def main(tier):
     e2e_cases, e2e_impl = ([], [])
     if ck.go_ok:
         e2e_cases, e2e_impl = e2e(ck, rng, 6 if thorough else 1)
+    verb_stats = {}
+    verb_time = time.time()
+    if ck.go_ok:
+        vcases, vimpl, verb_stats = e2e_verbatim(ck, rng, 3 if thorough else 1, thorough)
+        e2e_cases += vcases
+        e2e_impl += vimpl
+    verb_time = time.time() - verb_time
     base_e2e = len(cases)
     cases += e2e_cases
     impl_groups += e2e_impl
@@ -844,7 +1158,7 @@ def main(tier):
     if ck.go_ok:
         lsh_capped = e2e_lsh_capped(ck, rng, MODES if thorough else [rng.choice(MODES)])
 
-    lib.log("C10: e2e %.1fs" % (time.time() - tp)); tp = time.time()
+    lib.log("C10: e2e %.1fs (verbatim/range stage %.1fs)" % (time.time() - tp, verb_time)); tp = time.time()
     # detector level: returned groups against the pairs reported by the same call
     det_stats = {}
     if ck.go_ok:
@@ -867,6 +1181,8 @@ def main(tier):
         why = py_contract(c["mode"], c["k"], c["t"], case_pairs(c), g)
         if why:
             py_bad[idx] = why
+        elif c.get("range"):
+            pass        # a report with a similarity range: only the property's clauses are decided (the range may drop a whole k-core group)
         elif c["mode"] == "k_core" and {frozenset(x) for x in g} != py_kcore_components(c["k"], c["t"], case_pairs(c)):
             kcore_inexact += 1
             if kcore_inexact <= 3:
@@ -939,7 +1255,7 @@ def main(tier):
                 tshow = c["t"] if c["t"].denominator <= 64 else "%r" % float(c["t"])
                 ck.violation("%s mode %s (threshold %s, k %d): %s" % (where, c["mode"], tshow, c["k"], why or "check_contract = false"),
                              replay_of(c, {"impl_groups": impl_groups[idx], "model": str(cv[0]) if cv else None,
-                                           "dir": c.get("dir"), "locations": c.get("locations")}))
+                                           "dir": c.get("dir"), "config": c.get("config"), "locations": c.get("locations")}))
             continue
         if cv is None:
             continue
@@ -978,7 +1294,17 @@ def main(tier):
                 "bridges, chains, hubs); random graphs on 2..40 fragments with duplicate pairs; CLI runs per grouping_mode, each also with "
                 "lsh_enabled = \"true\", and " + ("one run per mode" if thorough else "one run (seeded mode)") + " of a 146..150-function project through "
                 "the LSH pipeline that has more clone pairs than the detector's cap of 10000 (groups against the pairs of the same report; Python "
-                "statement of the contract only). DETECTOR LEVEL (hook op clone_groups: real fragment extraction, DetectClones / DetectClonesWithLSH, "
+                "statement of the contract only). VERBATIM COPIES AND REPORT RANGE (CLI): " + ("3 projects" if thorough else "1 project") + " with three isolated families of "
+                "2, 3 and 4 verbatim copies (three unrelated texts out of 6, the copies spread over 3..5 files; every pair inside such a component is "
+                "exactly 1.0 and nothing else is linked to it at the threshold; the check fails if one of the sizes or a mixed component is missing) "
+                "next to near copies that form mixed components, under every grouping_mode with the default range [0, 1] (full contract against the "
+                "reported pairs, Python + proved checker; connected = exactly the components of the reported pair graph), then for every mode "
+                "min_similarity resp. max_similarity exactly at / 2^-40 below / 2^-40 above 1.0, an observed group similarity < 1 (of a group with >= 3 "
+                "members if there is one) and an observed pair similarity" + (" (up to 3 each)" if thorough else " (quick: connected mode all three values, the other modes 1.0 and a seeded one of the other two)") + ": (a) the reported pairs "
+                "and the reported groups are exactly the pairs / groups of the default-range run of the same mode whose similarity s satisfies "
+                "min <= s <= max (both bounds inclusive, the same for pairs and groups), (b) the contract of the mode on the REPORTED pairs; a failure "
+                "of (b) where (a) holds and the default-range run meets the contract is the recorded finding C10-F29 (range filter after grouping), "
+                "anything else a violation. DETECTOR LEVEL (hook op clone_groups: real fragment extraction, DetectClones / DetectClonesWithLSH, "
                 "pairs and groups of the SAME call): families of 12..16 (thorough: up to 40) near-identical small functions plus 2..3 weaker "
                 "unrelated ones, for each detection path {standard double loop, batches of 5, LSH} x {connected, complete_linkage, k_core, star} x "
                 "MaxClonePairs in {no cap or exactly the number of pairs, pairs-1, a seeded value <= pairs/3, 1}" +
@@ -989,7 +1315,7 @@ def main(tier):
                 "pair list (the check fails if a path has none). "
                 "distinct_nontrivial = cases where the implementation returned at least one group",
         "input_distribution": dict(lattice=n_lattice, lattice_scopes=[[b, str(t), n, start, stride, cnt] for b, t, e, n, start, stride, cnt in scopes], lattice_impl_equals_model=lattice_agree, structured=n_struct, random=n_rand,
-                                   e2e_cli=len(e2e_cases), e2e_cli_lsh=sum(1 for c in e2e_cases if c.get("lsh")), e2e_cli_lsh_capped=lsh_capped,
+                                   e2e_cli=len(e2e_cases), e2e_cli_lsh=sum(1 for c in e2e_cases if c.get("lsh")), e2e_cli_lsh_capped=lsh_capped, e2e_cli_verbatim_and_range=verb_stats,
                                    detector=det_stats, by_mode=by_mode),
         "contract_violations": n_viol,
         "model_mismatches": n_tie,
